@@ -39,7 +39,8 @@ def Emittable : Msg → Prop
 /-- `m` is one of the initiator's requests, the specification permits it in the tracked view, and the
     peer-sharing machine is not in its local parking state -/
 def Permits (st : Peer) (m : Msg) : Prop :=
-  Emittable m ∧ (clientStep (viewOf st) m).isSome = true ∧ (m.proto = .ps → st.ps ≠ .done)
+  Emittable m ∧ (clientStep (viewOf st) m).isSome = true ∧ (m.proto = .ps → st.ps ≠ .done) ∧
+    (m.proto = .ps → st.ps = .idle none)
 
 /-- same protocol states -/
 structure ProtoEq (a b : Peer) : Prop where
